@@ -200,3 +200,167 @@ func c14CloseAtomic(c *Ctx) {
 	}
 	c.Floor(rule, 4)
 }
+
+// c14Reentrant implements C14.reentrant: sync.Mutex and sync.RWMutex are not re-entrant. A function that holds a lock
+// (read or write) and calls, on the same object, a function that acquires that lock again deadlocks at once (Lock)
+// or as soon as a writer queues between the two read locks (RLock; a pending Lock blocks new readers).
+func c14Reentrant(c *Ctx) {
+	rule := "C14.reentrant"
+	c.Rule(rule, "A1 over static calls (depth 3): at no call site is a lock path p = root.rest definitely held while the callee (or a function it calls with the same object) acquires param.rest, param being the parameter bound to root")
+	var acquires func(g *ssa.Function, path string, depth int, seen map[string]bool) string
+	acquires = func(g *ssa.Function, path string, depth int, seen map[string]bool) string {
+		key := fnName(g) + "|" + path
+		if g == nil || len(g.Blocks) == 0 || depth > 3 || seen[key] {
+			return ""
+		}
+		seen[key] = true
+		for _, ci := range callInstrs(g) {
+			if _, isGo := ci.(*ssa.Go); isGo {
+				continue
+			}
+			if k, recv := lockOp(ci.Common()); k == "lock" || k == "rlock" {
+				if pathOf(recv) == path {
+					return fmt.Sprintf("%s %ss %s", fnName(g), k, path)
+				}
+				continue
+			}
+			callee := ci.Common().StaticCallee()
+			if callee == nil || callee.Pkg == nil || !c.isOurs(callee.Pkg.Pkg) {
+				continue
+			}
+			root, rest := splitRoot(path)
+			for i, a := range ci.Common().Args {
+				if i < len(callee.Params) && pathOf(a) == root {
+					if w := acquires(callee, callee.Params[i].Name()+rest, depth+1, seen); w != "" {
+						return w
+					}
+				}
+			}
+		}
+		return ""
+	}
+	n := 0
+	for _, fn := range c.OurFuncs() {
+		if c.isMockFile(fn.Pos()) {
+			continue
+		}
+		ls := computeLockset(fn)
+		for _, ci := range callInstrs(fn) {
+			if _, isGo := ci.(*ssa.Go); isGo {
+				continue
+			}
+			if _, isDefer := ci.(*ssa.Defer); isDefer {
+				continue
+			}
+			callee := ci.Common().StaticCallee()
+			if callee == nil || callee.Pkg == nil || !c.isOurs(callee.Pkg.Pkg) {
+				continue
+			}
+			st := ls.At(ci)
+			if len(st) == 0 {
+				continue
+			}
+			for p, m := range st {
+				if m == modeNone {
+					continue
+				}
+				root, rest := splitRoot(p)
+				for i, a := range ci.Common().Args {
+					if i >= len(callee.Params) || pathOf(a) != root {
+						continue
+					}
+					n++
+					w := acquires(callee, callee.Params[i].Name()+rest, 1, map[string]bool{})
+					c.Check(rule, fmt.Sprintf("%s|holding:%s|calls:%s", fnName(fn), p, fnName(callee)), w == "", ci.Pos(), "lock re-acquired on the same object while held: "+w)
+				}
+			}
+		}
+	}
+	c.CheckConst(rule, "matcher|calls-under-lock-seen", n >= 3, 0, fmt.Sprintf("%d calls on a locked object examined", n))
+}
+
+// c14PoolAccounting implements C14.pool-accounting: IteratorPool.disable() drains exactly the number of iterators
+// enable() put in, so every pooled iterator that is handed out must come back through the channel. put() may free
+// an iterator instead only when the entry itself says it was never pooled (its free flag); freeing under any other
+// condition leaves disable() waiting for an iterator that will never arrive, with the pool mutex held.
+func c14PoolAccounting(c *Ctx) {
+	rule := "C14.pool-accounting"
+	c.Rule(rule, "A2 must-facts in (*IteratorPool).put: every FreeIterator call is dominated by the entry's own free flag being true, and the entry is sent back to the pool channel otherwise; disable() receives and enable() sends the same constant number of entries")
+	put := c.Func("dnsdata/rdb", "(*IteratorPool).put")
+	c.Examined(put)
+	isFreeFlag := func(v ssa.Value) bool {
+		switch x := unwrap(v).(type) {
+		case *ssa.Field:
+			return fieldName(x.X.Type(), x.Field) == "free"
+		case *ssa.UnOp:
+			if fa, ok := x.X.(*ssa.FieldAddr); ok {
+				return fieldName(fa.X.Type(), fa.Field) == "free"
+			}
+		}
+		return false
+	}
+	nFree, nSend := 0, 0
+	for _, ci := range callInstrs(put) {
+		cc := ci.Common()
+		name := ""
+		if cc.IsInvoke() {
+			name = cc.Method.Name()
+		} else if f := cc.StaticCallee(); f != nil {
+			name = f.Name()
+		}
+		if name != "FreeIterator" {
+			continue
+		}
+		nFree++
+		ok := hasFact(ci.Block(), func(v ssa.Value, truth bool) bool { return truth && isFreeFlag(v) })
+		c.Check(rule, fmt.Sprintf("%s|free#%d|only-ephemeral-entries", fnName(put), nFree), ok, ci.Pos(), "an iterator is freed by put only when the entry's own free flag is set (it never was in the pool)")
+	}
+	for _, b := range put.Blocks {
+		for _, in := range b.Instrs {
+			if sd, ok := in.(*ssa.Send); ok {
+				nSend++
+				okS := hasFact(b, func(v ssa.Value, truth bool) bool { return !truth && isFreeFlag(v) })
+				c.Check(rule, fmt.Sprintf("%s|send#%d|pooled-entries-return", fnName(put), nSend), okS, sd.Pos(), "every entry whose free flag is false goes back to the channel")
+			}
+		}
+	}
+	c.Check(rule, fnName(put)+"|frees-and-returns", nFree >= 1 && nSend >= 1, put.Pos(), fmt.Sprintf("%d FreeIterator calls, %d sends", nFree, nSend))
+	// disable receives N, enable sends N
+	count := func(fn *ssa.Function, recv bool) (string, bool) {
+		for h, body := range naturalLoops(fn) {
+			has := false
+			for b := range body {
+				for _, in := range b.Instrs {
+					switch x := in.(type) {
+					case *ssa.UnOp:
+						if recv && x.Op == token.ARROW {
+							has = true
+						}
+					case *ssa.Send:
+						if !recv {
+							has = true
+						}
+					}
+				}
+			}
+			if !has {
+				continue
+			}
+			if iff, ok := h.Instrs[len(h.Instrs)-1].(*ssa.If); ok {
+				if bo, ok := iff.Cond.(*ssa.BinOp); ok && bo.Op == token.LSS {
+					if k, isK := constInt(bo.Y); isK {
+						return fmt.Sprint(k), true
+					}
+				}
+			}
+		}
+		return "", false
+	}
+	dis := c.Func("dnsdata/rdb", "(*IteratorPool).disable")
+	en := c.Func("dnsdata/rdb", "(*IteratorPool).enable")
+	c.Examined(dis)
+	c.Examined(en)
+	a, okA := count(dis, true)
+	b, okB := count(en, false)
+	c.Check(rule, "disable/enable|same-count", okA && okB && a == b, dis.Pos(), fmt.Sprintf("disable drains %s entries, enable creates %s", a, b))
+}
